@@ -67,8 +67,11 @@ type rig struct {
 }
 
 var rigSeq int
+var rigMu sync.Mutex
 
 func newRig() *rig {
+	rigMu.Lock()
+	defer rigMu.Unlock()
 	r := &rig{sessions: map[variant]*sqldrv.Session{}, schema: map[string]bool{}}
 	rigSeq++
 	for i := 0; i < nVariants; i++ {
